@@ -61,6 +61,8 @@ func run(c *Ctx) error {
 		sz.Forks, sz.Carried, sz.Malformed, sz.Forged = 2, 30, 2, 5
 		add("sizes-split-votes", sz, 1)
 	}
+	// a shorter branch justified and finalized through header-carried links while a longer unvoted branch is best
+	cases = append(cases, g.ShortBranchCases(id, c.N(12, 80))...)
 	return engine.RunProperty(c, engine.Oracles{C16: true}, cases,
 		"a case counts as non-trivial when the node admitted a verification message, signed a vote of its own or justified a checkpoint")
 }
